@@ -367,7 +367,7 @@ func runProp(id, tier string) int {
 	cov := map[string]interface{}{
 		"explanation":         p.Explain,
 		"obligations":         len(c.Obs),
-		"discharged":          discharged + nKnown,
+		"discharged":          discharged,
 		"known_findings":      nKnown,
 		"evaluations":         len(c.Obs),
 		"distinct_nontrivial": len(distinct),
@@ -476,6 +476,8 @@ func runOneMutant(p *propDef, m mutant, baseline map[string]bool) mutResult {
 		return r
 	}
 	c.Prop, c.Tier = p.ID, "mutant"
+	currentOverlay = ov
+	defer func() { currentOverlay = nil }()
 	func() {
 		defer func() {
 			if rec := recover(); rec != nil {
